@@ -103,6 +103,15 @@ class Translator:
                 return z3.RealVal(1) / r
             self.used_uf.add("pow")
             return uf("pow", 2)(self.tr(base), self.tr(ex))
+        if isinstance(e, sympy.Mod):
+            # sympy (like Python's %): Mod(a, b) = a - b * floor(a / b)  (result has the sign of the DIVISOR)
+            a, b = self.tr(e.args[0]), self.tr(e.args[1])
+            self.side_conditions.append(b != 0)
+            return a - b * z3.ToReal(z3.ToInt(a / b))
+        if isinstance(e, sympy.floor):
+            return z3.ToReal(z3.ToInt(self.tr(e.args[0])))
+        if isinstance(e, sympy.ceiling):
+            return -z3.ToReal(z3.ToInt(-self.tr(e.args[0])))
         if isinstance(e, sympy.Abs):
             a = self.tr(e.args[0])
             return z3.If(a >= 0, a, -a)
